@@ -52,6 +52,10 @@ type Solver struct {
 }
 
 func newSolver(bin string, args []string, timeoutMs int) (*Solver, error) {
+	if strings.Contains(bin, "cvc5") {
+		// cvc5 reads SMT-LIB2 from stdin; incremental mode is needed for push/pop
+		args = []string{"--incremental", "--lang", "smt2", "--produce-models", "--tlimit-per=" + strconv.Itoa(timeoutMs)}
+	}
 	s := &Solver{bin: bin, args: args, timeout: timeoutMs}
 	if err := s.start(); err != nil {
 		return nil, err
@@ -92,6 +96,9 @@ func (s *Solver) resetSession() {
 	s.send("(reset)")
 	if strings.Contains(s.bin, "z3") {
 		s.send(fmt.Sprintf("(set-option :timeout %d)", s.timeout))
+	}
+	if strings.Contains(s.bin, "cvc5") {
+		s.send("(set-logic ALL)")
 	}
 	s.defined = map[int]bool{}
 	s.declared = map[string]bool{}
